@@ -398,6 +398,43 @@ theorem inv_dealloc {s : State} (h : Inv s) (k : Nat) : Inv (dealloc s k).1 := b
         intro p hp
         simpa using key p hp
 
+/-- a state that differs only in the subscriber-id bookkeeping is as good as the original -/
+theorem inv_of_same {s s' : State} (h : Inv s) (hc : s'.cfg = s.cfg) (hp : s'.pool = s.pool)
+    (ha : s'.allocs = s.allocs) (hl : s'.log = s.log) : Inv s' := by
+  refine ⟨?_, ?_, ?_, ?_, ?_⟩
+  · rw [ha, hc, hp]; exact h.wf
+  · rw [ha]; exact h.pw
+  · rw [hp]; exact h.ips
+  · rw [hp, hc]; exact h.mx
+  · rw [hc, hl, ha]; exact h.lg
+
+/-- a failing kernel Put changes nothing but the subscriber-id bookkeeping -/
+theorem commitFail_same (s : State) (k : Nat) :
+    (commitFail s k).1.cfg = s.cfg ∧ (commitFail s k).1.pool = s.pool ∧
+    (commitFail s k).1.allocs = s.allocs ∧ (commitFail s k).1.log = s.log := by
+  unfold commitFail
+  split
+  · exact ⟨rfl, rfl, rfl, rfl⟩
+  · split <;> exact ⟨rfl, rfl, rfl, rfl⟩
+
+theorem allocFail_eq (s : State) (k : Nat) :
+    allocFail s k = match AMap.lookup s.allocs k with
+      | some a => (s, .alloc a)
+      | none => commitFail s k := by
+  unfold allocFail allocPre
+  cases h : AMap.lookup s.allocs k <;> simp
+
+theorem allocFail_same (s : State) (k : Nat) :
+    (allocFail s k).1.cfg = s.cfg ∧ (allocFail s k).1.pool = s.pool ∧
+    (allocFail s k).1.allocs = s.allocs ∧ (allocFail s k).1.log = s.log := by
+  rw [allocFail_eq]; split
+  · exact ⟨rfl, rfl, rfl, rfl⟩
+  · exact commitFail_same s k
+
+/-- a failing kernel Delete changes nothing at all -/
+theorem deallocFail_state (s : State) (k : Nat) : (deallocFail s k).1 = s := by
+  unfold deallocFail; split <;> rfl
+
 theorem step_cfg (s : State) (op : Op) : (step s op).1.cfg = s.cfg := by
   cases op <;> simp only [step]
   · unfold addPublicIP; split <;> rfl
@@ -411,6 +448,9 @@ theorem step_cfg (s : State) (op : Op) : (step s op).1.cfg = s.cfg := by
       · rfl
       · split <;> rfl
   · unfold dealloc; split <;> rfl
+  · exact (commitFail_same s _).1
+  · exact (allocFail_same s _).1
+  · rw [deallocFail_state]
 
 theorem inv_step {s : State} (hv : ValidCfg s.cfg) (h : Inv s) (op : Op) : Inv (step s op).1 := by
   cases op <;> simp only [step]
@@ -421,7 +461,13 @@ theorem inv_step {s : State} (hv : ValidCfg s.cfg) (h : Inv s) (op : Op) : Inv (
     · exact h
     · exact inv_allocCommit hv h _
   · exact inv_dealloc h _
-  all_goals exact h
+  · exact h
+  · exact h
+  · exact h
+  · have e := commitFail_same s ‹Nat›; exact inv_of_same h e.1 e.2.1 e.2.2.1 e.2.2.2
+  · have e := allocFail_same s ‹Nat›; exact inv_of_same h e.1 e.2.1 e.2.2.1 e.2.2.2
+  · rw [deallocFail_state]; exact h
+  · exact h
 
 theorem run_cfg (s : State) (ops : List Op) : (run s ops).cfg = s.cfg := by
   induction ops generalizing s with
@@ -517,7 +563,13 @@ theorem lookup_step_stable (s : State) (op : Op) (k : Nat) (a : Alloc)
     unfold dealloc; split
     · exact h
     · simp only; rw [lookup_erase_ne _ hne]; exact h
-  all_goals exact h
+  · exact h
+  · exact h
+  · exact h
+  · rw [(commitFail_same s _).2.2.1]; exact h
+  · rw [(allocFail_same s _).2.2.1]; exact h
+  · rw [deallocFail_state]; exact h
+  · exact h
 
 theorem filter_length_le_one {α : Type} {R : α → α → Prop} {P : α → Bool} {l : List α}
     (h : l.Pairwise R) (ex : ∀ x y, R x y → P x = true → P y = true → False) :
